@@ -227,7 +227,7 @@ def call_shapes(n: int, ndef: int):
 
 def fill(rng: core.Rng, pred: bool, n: int, ndef: int, k: int, kws: List[int], symmask: int, mode: str):
     """mode: 'distinct' (every symbolic argument over its own variable, or over a variable bound first),
-             'shared' (two symbolic arguments over the same open variable: K_predshare)"""
+             'shared' (two or more symbolic arguments over the same open variable; in F since 3f7e74b)"""
     params = list(range(1, n + 1))
     written = k + len(kws)
     nsym = bin(symmask).count("1")
@@ -355,9 +355,9 @@ def replay_finding(rep: Report, f: core.Finding, model_ok: bool):
                                "expected": e["expected_impl"], "code": code, "python": snippet(d), "explanation": EXPLAIN})
             continue
         # open finding: still failing, in its class, exactly as the faithful model predicts (and as recorded)?
-        if (code == 102 or (not model_ok and code == 103)) and impl == e["expected_impl"]:
+        if (code == 2 or (not model_ok and code == 3)) and impl == e["expected_impl"]:
             still += 1
-        elif code % 100 == 0:
+        elif code % 100 in (0, 1):      # impl = spec (1: the faithful model still predicts the old, wrong outcome)
             gone += 1
         else:
             rep.violation({"kind": "counterexample", "case": d, "impl": impl, "code": code, "python": snippet(d),
@@ -371,8 +371,8 @@ def replay_finding(rep: Report, f: core.Finding, model_ok: bool):
 
 EXPLAIN = ("outcome encoding: concrete -> [0, result | -1 TypeError, calls]; symbolic -> [1, 0 | -1 TypeError during evaluation | "
            "n>0 body ran n times at construction, calls (parameter values seen by the body, defaults filled in, objects as 100+idx), "
-           "rows (selected variables)]. code = 100*class + k; class 0 = F, 1 = two written arguments share an open variable "
-           "(K_predshare, C01-d), 2 = call Python itself rejects (property silent; impl vs model only); "
+           "rows (selected variables)]. code = 100*class + k; class 0 = F (every well-formed call), "
+           "2 = call Python itself rejects (property silent; impl vs model only); "
            "k: 0 agree, 1 impl=spec but model differs, 2 impl=model but not spec, 3 impl differs from both, 4 order differs from the model")
 
 
@@ -382,8 +382,8 @@ def run(tier: str, seed: int, replay=None) -> int:
     rep.trusted = core.COQ_TRUSTED + [
         "translator/t_pred.py (fail-closed ast translator: merge_args_and_kwargs, symbolic_function.wrapper, Predicate.__new__, "
         "_any_of_the_kwargs_is_a_variable -> Gen/Pred.v) and its idiom table Eql/PredIdioms.v (dict as ordered association list, zip, slicing, any)",
-        "hand-written model of the predicate-variable evaluation (Eql/PredEval.v: independent evaluation of the kwargs, itertools.product, "
-        "values.update in kwarg order), variable-level bindings; tied by differential execution through an(entity/set_of(...))",
+        "hand-written model of the predicate-variable evaluation (Eql/PredEval.v: nested loops over the kwargs, each evaluated under the bindings of "
+        "the ones before it, values.update in kwarg order), variable-level bindings; tied by differential execution through an(entity/set_of(...))",
         "source pins `pred` (pins/sets/pred.json, recorded in pins/pred.json): the 22 methods the hand model mirrors and no translator regenerates "
         "(Variable.__post_init__/_update_child_vars_from_kwargs_/_evaluate__/_should_be_instantiated_/_instantiate_using_child_vars_and_yield_results_/"
         "_generate_combinations_for_child_vars_values_/_process_output_and_update_values_, Literal.__init__, DomainMapping._evaluate__, Attribute._apply_mapping_, "
@@ -396,7 +396,7 @@ def run(tier: str, seed: int, replay=None) -> int:
                   "domains are non-empty explicit lists of distinct truthy objects (empty / falsy / repeated domain elements are C01 / C03 classes)"]
     rep.rule = ("exhaustive over path (function / Predicate subclass) x arity 1..N x number of defaults x number of positionals x which defaulted "
                 "parameters are omitted x keyword order (natural / reversed) x every variable/concrete split (quick N=3, thorough N=4); per combination one "
-                "case with each symbolic argument over its own or an already bound variable and, for >= 2 symbolic arguments, one with a shared open variable; "
+                "case with each symbolic argument over its own or an already bound variable and, for >= 2 symbolic arguments, one where they share an open variable; "
                 "worlds, attribute chains, defaults and the body's truth table drawn from VERIF_SEED; plus a malformed stream. "
                 "distinct = distinct case description; non-trivial = concrete call, or symbolic with >= 2 different calls of which at least one is true and one false")
     ok_spec, log = core.coq_make(["Base/Sx.vo", "Eql/PredSpec.vo", "Eql/PredCase.vo"])
@@ -434,18 +434,20 @@ def run(tier: str, seed: int, replay=None) -> int:
     cases = [make_case(d) for d in descrs]
     codes = core.coq_codes(PROP, header, "pcase", fn, [(c.term, core.sx(c.impl)) for c in cases], chunk=250)
 
-    dist: Dict[str, int] = {"F": 0, "K_predshare": 0, "malformed": 0, "symbolic": 0, "concrete": 0, "function": 0, "predicate": 0,
+    dist: Dict[str, int] = {"F": 0, "malformed": 0, "shared_open_variable": 0, "symbolic": 0, "concrete": 0, "function": 0, "predicate": 0,
                             "with_positional": 0, "with_keyword": 0, "with_default_omitted": 0, "with_prebound": 0,
-                            "K_predshare_agreeing_with_spec": 0, "K_predshare_instances": 0}
+                            }
     bad = []
     for c, code in zip(cases, codes):
         d = c.descr
         cls, k = divmod(code, 100)
         sym = c.impl[0] == 1 and len(c.impl) == 4
         nontrivial = c.impl[0] == 0 or (sym and 0 < len(c.impl[3]) and len({tuple(x) for x in c.impl[2]}) > 1
-                                        and (len(c.impl[3]) < len(c.impl[2]) or cls == 1))
+                                        and len(c.impl[3]) < len(c.impl[2]))
         rep.count(c.key, nontrivial)
-        dist[["F", "K_predshare", "malformed"][cls]] += 1
+        dist[{0: "F", 2: "malformed"}[cls]] += 1
+        opened = [v for a in d["pos"] + [a for _, a in d["kw"]] for v in arg_vars(a) if v not in d["pre"]]
+        dist["shared_open_variable"] += cls == 0 and len(opened) != len(set(opened))
         dist["symbolic" if sym else "concrete"] += 1
         dist["predicate" if d["pred"] else "function"] += 1
         dist["with_positional"] += bool(d["pos"])
@@ -453,14 +455,6 @@ def run(tier: str, seed: int, replay=None) -> int:
         dist["with_default_omitted"] += len(d["pos"]) + len(d["kw"]) < len(d["params"])
         dist["with_prebound"] += bool(d["pre"])
         if k == 0:
-            if cls == 1:
-                dist["K_predshare_agreeing_with_spec"] += 1
-            continue
-        if cls == 1 and k == 2:
-            dist["K_predshare_instances"] += 1      # instance of the known finding, exactly as the faithful model predicts
-            continue
-        if k == 1 and cls == 1:
-            rep.note(f"model stale on K_predshare: impl = spec on {c.key[:200]} (finding appears repaired)")
             continue
         if k in (1, 4) and cls == 0:
             rep.oblige("correspondence:model", False, f"model differs from impl (=spec) on {c.key[:300]}")
@@ -469,19 +463,12 @@ def run(tier: str, seed: int, replay=None) -> int:
             # a call Python itself rejects: the property is silent; a difference only says the model is not faithful here
             rep.oblige("correspondence:model-malformed", False, f"model differs from impl on the malformed call {c.key[:300]}")
             continue
-        if cls == 1 and not model_ok:
-            # without the model an instance of the known finding cannot be told from a new failure in the same class
-            dist["K_predshare_unverified_model_unavailable"] = dist.get("K_predshare_unverified_model_unavailable", 0) + 1
-            continue
         bad.append((c, code))
     bad.sort(key=lambda cc: (cc[1] // 100 != 0, len(cc[0].key)))     # smallest case of the proved fragment first
     rep.extra["distribution"] = dist
-    rep.extra["exhaustive"] = "call shapes exhaustive up to the stated arity; worlds and expressions sampled"
+    rep.extra["exhaustive_note"] = "call shapes exhaustive up to the stated arity; worlds and expressions sampled"
     step = max(1, len(cases) // 6)
     rep.samples = [{"case": c.descr, "impl": c.impl} for c in cases[::step]][:6]
-    kf_ids = {f.cls for f in core.load_findings(PROP) if f.kind == "open"}
-    if dist["K_predshare_instances"] and "K_predshare" not in kf_ids:
-        bad += [(c, code) for c, code in zip(cases, codes) if code == 102][:2]
     for c, code in bad[:5]:
         try:
             exprs = [f"spec_outcome ({c.term})"] + ([f"model_outcome ({c.term})"] if model_ok else [])
